@@ -124,7 +124,7 @@ func runC12(c *Ctx, r *Rec) {
 			unassigned, _ := g.exists(pathQuery{from: point{g.entry(), 0},
 				atLeastOnce: g.nonEmptyRangeLoops(c, info, fd.Body),
 				stop:        func(n ast.Node) bool { return n != ast.Node(rs) && assignedIn(info, n, key, env) },
-				goalNode: func(n ast.Node) bool { return n == ast.Node(rs) }})
+				goalNode:    func(n ast.Node) bool { return n == ast.Node(rs) }})
 			if unassigned {
 				bad = fmt.Sprintf("a path reaches the failing return at %s without ever assigning the token result %s: it is nil, and the caller's diagnostic (token.GetLine()) is a nil dereference instead of a located syntax error", c.pos(rs.Pos()), obj.Name())
 			}
